@@ -40,7 +40,7 @@ PROPS = {
                 rule="filter grid (run x GC range x motifs, and user-defined table predicates) x k x threshold x start x "
                      "message x table x mode, plus the constructor grid and the threshold grid; non-trivial = a "
                      "non-empty strand was emitted / configuration accepted"),
-    "C03": dict(level="proof", theorems=T("C03", "C03_trimLoop", "C03_gfp", "C03_t1", "C03_holds", "C03_mono", "C03_latter_map", "C03_goodFrom", "C03_pure"), gens=["C03"],
+    "C03": dict(level="proof", theorems=T("C03", "C03_trimLoop", "C03_gfp", "C03_t1", "C03_holds", "C03_mono", "C03_latter_map", "C03_goodFrom", "C03_pure") + T("C03b", "C03_remove_useless"), gens=["C03"],
                 rule="vertex masks (density classes, structured cycles; thorough: a seeded quarter of all 65 536 order-2 "
                      "masks) x threshold 1..4 x dtype; non-trivial = mask neither empty nor full and at least one "
                      "vertex removed"),
@@ -57,7 +57,7 @@ PROPS = {
                                           "C07_decode_rejects"), gens=["C07"],
                 rule="all strands up to a length bound x check lengths x all single edits, plus long random strands "
                      "and check lengths up to 200; non-trivial = length >= 2 with at least one ascent"),
-    "C08": dict(level="proof", theorems=T("C08", "C08_single", "C08_single_subst", "C08_multi", "C08_single_subst_only", "C08_single_ins", "C08_single_del") + T("C09", "C09_clean") + T("EndToEnd", "E2E_single_edit", "E2E_repair_then_decode"), gens=["C08"],
+    "C08": dict(level="proof", theorems=T("C08", "C08_single", "C08_single_subst", "C08_multi", "C08_single_subst_only", "C08_single_ins", "C08_single_del") + T("C09", "C09_clean") + T("EndToEnd", "E2E_single_edit", "E2E_repair_then_decode") + T("C08b", "C08_path_matching_sound", "C08_path_matching_complete", "C08_path_matching_error"), gens=["C08"],
                 rule="generated graphs x walks x (all single interior edits | spaced multi-edit sets) x check x indel; "
                      "non-trivial = at least one detection"),
     "C09": dict(level="proof", theorems=T("C09", "C09_clean", "C09_sorted_nodup", "C09_check"), gens=["C09"],
@@ -70,7 +70,7 @@ PROPS = {
                 rule="filters (documented-interface table filter, keyword-extended filter, LocalBioFilter, empty) x "
                      "k, and masks x dtype for the valid graph; non-trivial = mask neither empty nor full"),
     "C12": dict(level="proof", theorems=T("C12", "C12_valid_all", "C12_last", "C12_window_conj", "C12_revcomp",
-                                          "C12_foreign", "C12_isInfix", "C12_accepted"), gens=["C12"],
+                                          "C12_foreign", "C12_isInfix", "C12_accepted") + T("C12b", "C12_thresholds", "C12_exact_consistent"), gens=["C12"],
                 rule="(configuration, string) pairs incl. biased strands, foreign characters, k up to 25; "
                      "non-trivial = toggling one rule flips the verdict",
                 trusted=["the float products lo*k, hi*k, k-lo*k are turned into integer thresholds by the harness with "
